@@ -664,10 +664,6 @@ theorem childReports_clean (path : Path) (gen : Nat) : ∀ (cs : List Child) (i 
       · exact hc
       · exact h3 c' hc'
 
-/-- the source under check raises on a failed child report (false for the code before f1fcb9a) and on a child whose
-signature is already taken (false for the code before 6571c4f). -/
-theorem genRaises_fact : genRaisesOnFailedChild = true ∧ genRaisesOnDuplicate = true := by decide
-
 theorem clashesExisting_false : ∀ (rs : List Report) (seen : List TKey), clashesExisting seen rs = false →
     (rs.filterMap Report.key).Nodup ∧ ∀ k ∈ rs.filterMap Report.key, k ∉ seen := by
   intro rs
@@ -690,30 +686,6 @@ theorem clashesExisting_false : ∀ (rs : List Report) (seen : List TKey), clash
       rcases List.mem_cons.1 hk with rfl | hk
       · simpa using h.1
       · exact fun hks => h2 k hk (List.mem_cons_of_mem _ hks)
-
-/-- **C13_generated_total** (true since fixes f1fcb9a, F35, and 6571c4f, F39). Whatever children a task generator
-defines while it runs, and whatever tasks the session already holds: either the generator fails (so the build does not
-end with exit code 0), or every child — none of them uncollectable — is collected, in order, exactly once, under
-ids that are pairwise distinct and differ from every id already in the session. No generated task is silently
-dropped, none is merged with an existing task. -/
-theorem C13_generated_total (path : Path) (gen : Nat) (cs : List Child) (existing : List TKey) :
-    generatorCollect genRaisesOnFailedChild genRaisesOnDuplicate existing (childReports path gen 0 cs) = none ∨
-    (generatorCollect genRaisesOnFailedChild genRaisesOnDuplicate existing (childReports path gen 0 cs) = some (childReports path gen 0 cs) ∧
-      (childReports path gen 0 cs).length = cs.length ∧ (∀ c ∈ cs, c.uncollectable = false) ∧
-      ((childReports path gen 0 cs).filterMap Report.key).Nodup ∧
-      ∀ k ∈ (childReports path gen 0 cs).filterMap Report.key, k ∉ existing) := by
-  unfold generatorCollect
-  rw [genRaises_fact.1, genRaises_fact.2]
-  cases h : (childReports path gen 0 cs).any Report.isFail with
-  | true => left; simp
-  | false =>
-    cases hc : clashesExisting existing (childReports path gen 0 cs) with
-    | true => left; simp
-    | false =>
-      right
-      obtain ⟨h1, h2, h3⟩ := childReports_clean path gen cs 0 h
-      obtain ⟨h4, h5⟩ := clashesExisting_false _ existing hc
-      exact ⟨by simp [h1], h2, h3, h4, h5⟩
 
 /-- Without the raises (the code before the fixes) an uncollectable child vanishes (F35) and a child named like an
 existing task is merged with it (F39); with them the generator fails. -/
